@@ -148,3 +148,40 @@ func (ctx *Context) VerifParseStats() VerifParseStatsT {
 	}
 	return st
 }
+
+// ---------------------------------------------------------------------------
+// detail spans of the last run (what GetDetailText renders)
+
+type VerifSpan struct {
+	Begin      int64  `json:"begin"`
+	End        int64  `json:"end"`
+	Ret        string `json:"ret"` // Ret.ToString(), "" when Ret is nil
+	RetNil     bool   `json:"retNil"`
+	Text       string `json:"text"`
+	Expr       string `json:"expr"`
+	Tag        string `json:"tag"`
+	TextOnly   bool   `json:"textOnly"`
+	ExprSuffix string `json:"exprSuffix"`
+}
+
+func (ctx *Context) VerifDetailSpans() []VerifSpan {
+	out := make([]VerifSpan, 0, len(ctx.DetailSpans))
+	for _, s := range ctx.DetailSpans {
+		v := VerifSpan{Begin: int64(s.Begin), End: int64(s.End), Text: s.Text, Expr: s.Expr, Tag: s.Tag, TextOnly: s.TextOnly, ExprSuffix: s.ExprSuffix}
+		if s.Ret == nil {
+			v.RetNil = true
+		} else {
+			v.Ret = s.Ret.ToString()
+		}
+		out = append(out, v)
+	}
+	return out
+}
+
+// VerifParsedOffset is the parser's final offset (-1 when nothing was parsed).
+func (ctx *Context) VerifParsedOffset() int {
+	if ctx.parser == nil {
+		return -1
+	}
+	return ctx.parser.pt.offset
+}
